@@ -68,6 +68,7 @@ def req_bytes(kind, i):
 
 
 RESP_KINDS = ["cl", "chunked", "close", "304", "crlf-cl"]
+SURPLUS = b"xyz"
 
 
 def resp_segments(kind, target, method):
@@ -86,6 +87,9 @@ def resp_segments(kind, target, method):
         return b"HTTP/1.1 304 Not Modified\r\n" + tag + b"\r\n", False
     if kind == "crlf-cl":
         return b"\r\n" + resp_segments("cl", target, method)[0], False
+    if kind.endswith("+surplus"):
+        # a misbehaving server: bytes that belong to no response directly behind a complete, self-delimited one
+        return resp_segments(kind[: -len("+surplus")], target, method)[0] + SURPLUS, False
     raise AssertionError(kind)
 
 
@@ -297,6 +301,51 @@ def h_bytewise(X, cfg):
     _in_order(X, obs, "one-byte-segment run", tag)
 
 
+def h_surplus(X, cfg):
+    """a NON-pipelining client (request 2 is sent after response 1 has arrived completely) and a server that sends surplus bytes
+    behind response 1: where the response/surplus bytes are cut into segments must not matter.  (With a pipelining client the
+    surplus races with request 2 on the wire itself, which no proxy can hide -- those schedules are not generated.)"""
+    first = X.choose("req1", cfg["req1"])
+    r1 = X.choose("resp1", cfg["resp1"])
+    stream = X.choose("stream", cfg["stream"])
+    kinds, resps = [first, "get"], [r1, "cl"]
+    tag = cfg["name"]
+    csegs = [req_bytes(first, 0), req_bytes("get", 1)]
+    k = ("surplus", first, r1, stream)
+    if k not in _BASE:
+        _BASE[k] = _execute(kinds, resps, stream, csegs, _whole, lambda step: "s")
+    base = _BASE[k]
+    scut_log = []
+
+    def cut_response(i, data):
+        pts, lo = [], 1
+        for j in range(cfg["scuts"] if i == 0 else 0):
+            if lo >= len(data):
+                break
+            c = X.choose("scut", len(data) - lo + 1)
+            if c == 0:
+                break
+            pts.append(lo + c - 1)
+            lo = pts[-1] + 1
+        scut_log.append(pts)
+        return [data[a:b] for a, b in zip([0] + pts, pts + [len(data)])]
+
+    obs = _execute(kinds, resps, stream, csegs, cut_response, lambda step: "s")
+    X.reach("ran")
+    if scut_log and scut_log[0]:
+        X.reach("server-cut")
+    if len(base["flows"]) == 2 and base["flows"][1][1] is not None:
+        X.reach("two-flows-complete")
+    how = f"response+surplus cuts {scut_log}, non-pipelining client, stream={stream}"
+    _in_order(X, base, "unsplit run", tag)
+    _compare(X, tag, (kinds, resps, stream), base, obs, how)
+    _in_order(X, obs, "split run (" + how + ")", tag)
+    for what, o in (("unsplit", base), ("split", obs)):
+        X.check(len(o["flows"]) == 2 and all(f[1] is not None and f[1][0] == 200 or f[1] is not None and f[1][0] == 304 for f in o["flows"]),
+                f"C02/{tag}/surplus-bytes-leak-into-next-exchange",
+                f"{what} run ({how}): a request sent after the previous exchange was complete did not get its own response: {o['flows']}")
+
+
 def obligations(tier):
     q = tier == "quick"
     single = {"name": "single-2cuts", "req1": ["get", "post-cl", "post-chunked"] + ([] if q else ["head", "crlf-get"]), "req2": ["-"],
@@ -324,4 +373,10 @@ def obligations(tier):
                         must_reach=["ran", "response-hook"] + (["client-cut"] if c["ccuts"] else []) + (["server-cut"] if c["scuts"] else [])
                         + (["two-flows-complete", "client-segment-after-server-segment"] if c is pair or c is both else []), parallel_depth=3))
     obs.append(Symx(bw["name"], lambda X: h_bytewise(X, bw), bounds=desc(bw), encoded=ENCODED, must_reach=["ran", "response-hook", "two-flows-complete"], parallel_depth=3))
+    sp = {"name": "server-surplus", "req1": ["get"] if q else ["get", "post-cl"], "resp1": ["cl+surplus", "chunked+surplus"] + ([] if q else ["304+surplus"]),
+          "stream": [False, True], "scuts": 2}
+    obs.append(Symx(sp["name"], lambda X: h_surplus(X, sp),
+                    bounds=f"non-pipelining client: request 1 in {sp['req1']}, then GET after response 1 arrived; server sends response 1 in {sp['resp1']} "
+                           f"(a complete response directly followed by {SURPLUS!r}) cut at every choice of <= 2 byte positions, then a plain response 2; streaming in {sp['stream']}",
+                    encoded=ENCODED, must_reach=["ran", "server-cut", "two-flows-complete"], parallel_depth=2))
     return obs
